@@ -57,6 +57,64 @@ def strict_parse(line):
     return json.loads(line, parse_constant=bad)
 
 
+_NONFINITE = re.compile(r'(?<![\w"\\.])-?(?:inf|nan)(?![\w"])')
+
+
+def nonfinite_only(line):
+    """True if the line is a JSON object once bare inf / -inf / nan number tokens outside strings are replaced by 0."""
+    out, instr, i = [], False, 0
+    while i < len(line):          # blank out string contents so that the pattern cannot match inside a name
+        ch = line[i]
+        if instr:
+            if ch == "\\":
+                out.append("xx"); i += 2; continue
+            if ch == '"':
+                instr = False
+            out.append(ch if ch == '"' else "x")
+        else:
+            if ch == '"':
+                instr = True
+            out.append(ch)
+        i += 1
+    blank = "".join(out)
+    if not _NONFINITE.search(blank):
+        return False
+    try:
+        return isinstance(strict_parse(_NONFINITE.sub("0", blank)), dict)
+    except ValueError:
+        return False
+
+
+def model_undefined_somewhere(n):
+    """True if some expression of the model has no value (nl.Undefined) at a sample point inside the variable bounds."""
+    import itertools
+    axes = []
+    for v in n.vars:
+        lb, ub = v["lb"], v["ub"]
+        lo = lb if lb != -nl.INF else min(F(-3), ub if ub != nl.INF else F(-3))
+        hi = ub if ub != nl.INF else max(F(3), lo)
+        cand = [lo, hi, F(0), F(1), F(-1), F(1, 2), F(3, 2), F(-3, 2), F(2)]
+        if v["int"]:
+            cand = [c for c in cand if c.denominator == 1]
+        vals = []
+        for c in cand:
+            if lo <= c <= hi and c not in vals:
+                vals.append(c)
+        axes.append(vals[:6] or [lo])
+    roots = [c["expr"] for c in n.cons if c.get("expr") is not None] + list(n.lcons) + [o["expr"] for o in n.objs if o.get("expr") is not None] + \
+            [d["expr"] for d in n.dvars if d.get("expr") is not None]
+    nodes = [e for r in roots for e in nl.walk(r)]      # every subexpression by itself: evaluation of a root may skip a branch
+    for p in itertools.islice(itertools.product(*axes), 300):
+        for e in nodes:
+            try:
+                nl.ev(e, list(p), n)
+            except nl.Undefined:
+                return True
+            except Exception:
+                pass
+    return False
+
+
 def judge(n, mode, base, accmode, opts, res, known=()):
     from .c19 import make_names
     nv, ndv = len(n.vars), len(n.dvars)
@@ -74,6 +132,8 @@ def judge(n, mode, base, accmode, opts, res, known=()):
     finally:
         shutil.rmtree(run.dir, ignore_errors=True)
     cobj = dict(model=nl.model_to_obj(n), mode=mode, base=base, accmode=accmode, opts=opts)
+    if common.alloc_limit(run, res):
+        return None
     if run.sanitizer or run.signal:
         return ("crash: %s" % common.crash_head(run.err), cobj, "crash")
     fm = run.dump
@@ -93,6 +153,11 @@ def judge(n, mode, base, accmode, opts, res, known=()):
                 raise ValueError("not an object")
             recs.append(r)
         except ValueError as e:
+            if nonfinite_only(line) and model_undefined_somewhere(n):
+                # the quantifier is over NaN-free models: an expression of this one is undefined (division by zero, negative base with a
+                # fractional power, ...) at a point inside the bounds, and the only thing wrong with the line is a bare inf/nan number
+                res.label("not judged: inf/nan number in the export of a model with an undefined expression")
+                return None
             problems.append(("invalid-json-line", "line %d is not valid JSON (%s): %r" % (ln + 1, str(e)[:60], line[:160])))
             break
     converted = fm is not None and fm.complete
